@@ -206,6 +206,11 @@ pub fn run_c13(tier: Tier) -> i32 {
         Tier::Quick => vec![(mk(true, 0), 3), (mk(false, 250_000), 3)],
         Tier::Thorough => vec![(mk(true, 0), 4), (mk(false, 0), 4), (mk(true, 250_000), 4), (mk(false, 250_000), 4)],
     };
+    // an almost empty insurance fund: shortfalls (bad debt, funding owed to the vault) exceed it
+    let mut confs = confs;
+    let mut poor = mk(false, 0);
+    poor.if_funds = 2 * D;
+    confs.push((poor, tier.pick(3, 4)));
     for (c, d) in confs {
         let m = TwinModel { cfg: c.clone(), alphabet: alpha.clone() };
         run.explore(&format!("twin [{}]", c.label().replace("cw20", "cw20||native ")), json!({"cfg": to_val(&c)}), &m, &seeds, &Limits::new(d));
